@@ -32,6 +32,12 @@ def run_property(pid, root, tier, overrides=None, quiet=False, write_evidence=Tr
         if write_evidence:
             st = thorough.run_selftest(root, thorough.family_of(pid))
             ctx.extra["selftest_on_current_tree"] = st
+            if os.path.abspath(root) == DEFAULT_REPO:
+                from . import refactor_fuzz
+                rf = refactor_fuzz.run_for_property(pid, root)
+                ctx.extra["refactoring_fuzz_on_current_tree"] = rf
+                for r in rf["not_silent"]:
+                    ctx.info.append("refactor-fuzz: behaviour-preserving variant %s of %s::%s is not silent (%s) - checker brittleness, not a property verdict" % (r[2], r[0], r[1], r[3]))
             for r in st["failed"]:
                 ctx.info.append("selftest: variant %s not classified as expected (%s) - checker weakness, not a property verdict" % (r[0], r[2]))
     code = ctx.finish(
